@@ -17,8 +17,18 @@
 (*   blackP addresses whose blacklist entry is persisted in the shared storage (black = the     *)
 (*          IPManager's in-memory list; Reload = a restarted server / another node re-creates   *)
 (*          the IPManager from the storage)                                                     *)
+(*   bhow   how each persisted blacklist entry was made ("temp" | "perm" | "cidr"; "none" = no    *)
+(*          entry): the loader treats the three record shapes (expiry date set / zero expiry    *)
+(*          date / range key) in different branches                                             *)
+(*   white / whiteP   the whitelist, in memory / persisted (a whitelisted address passes the     *)
+(*          IPManager whatever the blacklist says; the protector's ban still applies)            *)
 (*   corrupt clients whose stored secret cannot be decrypted by this server (master key rotated,*)
 (*          damaged record): no response can be verified against it                             *)
+(*   blank  (subset of corrupt) clients whose record has no encrypted secret at all: phase 1     *)
+(*          refuses them; a phase 2 reaches the verifier only through another id's challenge     *)
+(*   deleted clients whose record was removed (Service.DeleteClient): unknown to the server again  *)
+(*   rekeyed clients whose secret was reset (Service.ResetSecretKey) after it was handed out:    *)
+(*          the key the first holder has is not the stored secret any more (response "OldKey")   *)
 (*   cloud  "down": the runtime-state calls of the session layer into cloud control fail        *)
 (*   kq/kx  a KickOldConnection(kx, ..) whose locked section is done and whose I/O (kick        *)
 (*          command to connection kq, closing its stream) is still outstanding                  *)
@@ -42,6 +52,13 @@ CONSTANTS Conn,      \* sequence of connection names, accepted in this order, e.
                      \*   "splitUpdateAuth"  UpdateAuth = lookup under the read lock, then index write under the write lock
                      \*   "closeNeedsCloud"  RemoveControlConnection keeps the registry entry when the cloud-control notification fails
                      \*   "kickSendFirst"    KickOldConnection = lookup, send the kick, then delete index entry and connection unconditionally
+                     \*   "reloadDropsPermanent" / "reloadDropsTemporary" / "reloadDropsRanges"  IPManager.loadListFromStorage skips the
+                     \*                      persisted blacklist records of that shape (zero expiry date / running expiry date / range key)
+                     \*   "whitelistAny"     a whitelist entry for one address lets every address pass the IPManager
+                     \*   "verifyIgnoresDecryptError"  VerifyResponse goes on with the empty key when the stored secret cannot be decrypted
+                     \*   "blankSkipsVerify" a record without an encrypted secret is accepted without verification in phase 2
+                     \*   "oldKeyAccepted"   the verifier still accepts the secret that ResetSecretKey replaced
+                     \*   "deletedStillKnown" the handler still finds the record of a deleted client (a copy that is never invalidated)
           Ops,       \* enabled operation kinds
           Types,     \* connection types used in handshake messages
           PreAccept, \* TRUE: all connections are accepted in the initial state
@@ -94,22 +111,35 @@ RecFail(s, c) == LET n == IF s.fails[c] < MaxFail THEN s.fails[c] + 1 ELSE MaxFa
 
 NextClient(s) == Client[Cardinality(s.issued) + 1]
 
+\* IPManager.IsAllowed (whitelist first, then blacklist; the in-memory lists) and BruteForceProtector.IsBanned
+PassIP(s, c) == c \in s.white \/ ("whitelistAny" \in Faults /\ s.white # {}) \/ c \notin s.black
+Refused(s, c) == ~PassIP(s, c) \/ c \in s.banned
+
+\* SecretKeyManager.VerifyResponse(stored secret of m.id, pending challenge of c, response): decrypt, HMAC, compare
+Verifies(s, c, m) ==
+  \/ m.resp = "ValidLatest" /\ s.pend[c] = s.nn[c] /\ m.id \notin s.corrupt
+  \/ "verifyIgnoresDecryptError" \in Faults /\ m.resp = "EmptyKey" /\ m.id \in s.corrupt
+  \/ "blankSkipsVerify" \in Faults /\ m.id \in s.blank
+  \/ "oldKeyAccepted" \in Faults /\ m.resp = "OldKey" /\ m.id \notin s.corrupt
+
 \* ServerAuthHandler.HandleHandshake: [s |-> state, out |-> "ok" | "chal" | "fail", id |-> client concerned]
 Handler(s0, c, m) ==
   LET s == GetOrCreate(s0, c) IN
-  IF c \in s.black \/ c \in s.banned THEN [s |-> s, out |-> "fail", id |-> None]
+  IF Refused(s, c) THEN [s |-> s, out |-> "fail", id |-> None]
   ELSE IF "oneIdentity" \in Fixes /\ s.auth[c] # None /\ (m.k = "FC" \/ m.id # s.auth[c])
     THEN [s |-> s, out |-> "fail", id |-> None]
   ELSE IF m.k = "FC" THEN
     LET X == NextClient(s) IN
     [s |-> [s EXCEPT !.issued = @ \cup {X}, !.auth[c] = X, !.fails[c] = 0], out |-> "ok", id |-> X]
-  ELSE IF m.id \notin s.issued THEN [s |-> RecFail(s, c), out |-> "fail", id |-> m.id]
+  ELSE IF m.id \notin s.issued \/ (m.id \in s.deleted /\ "deletedStillKnown" \notin Faults)
+    THEN [s |-> RecFail(s, c), out |-> "fail", id |-> m.id]
   ELSE IF m.id \in s.expired THEN [s |-> s, out |-> "fail", id |-> m.id]
   ELSE IF m.k = "P1" THEN
-    [s |-> [s EXCEPT !.nn[c] = @ + 1, !.pend[c] = s.nn[c] + 1], out |-> "chal", id |-> m.id]
+    IF m.id \in s.blank THEN [s |-> s, out |-> "fail", id |-> m.id]   \* "client credentials not configured" (no failure recorded)
+    ELSE [s |-> [s EXCEPT !.nn[c] = @ + 1, !.pend[c] = s.nn[c] + 1], out |-> "chal", id |-> m.id]
   ELSE \* P2
     IF s.pend[c] = 0 THEN [s |-> RecFail(s, c), out |-> "fail", id |-> m.id]
-    ELSE IF m.resp = "ValidLatest" /\ s.pend[c] = s.nn[c] /\ m.id \notin s.corrupt
+    ELSE IF Verifies(s, c, m)
       THEN [s |-> [s EXCEPT !.pend[c] = 0, !.auth[c] = m.id, !.fails[c] = 0], out |-> "ok", id |-> m.id]
       ELSE [s |-> RecFail([s EXCEPT !.pend[c] = 0], c), out |-> "fail", id |-> m.id]
 
@@ -162,6 +192,7 @@ RespsFor(s, c, X) == {"Garbage"} \cup (IF X \in s.issued /\ s.nn[c] > 0 THEN {"V
                                \cup (IF X \in s.issued /\ s.nn[c] > 1 THEN {"ValidStale"} ELSE {})
                                \cup (IF s.nn[c] > 0 /\ s.issued \ {X} # {} THEN {"ForeignKey"} ELSE {})
                                \cup (IF s.nn[c] > 0 /\ "Corrupt" \in Ops THEN {"EmptyKey"} ELSE {})   \* HMAC under the empty key
+                               \cup (IF s.nn[c] > 0 /\ X \in s.rekeyed THEN {"OldKey"} ELSE {})       \* HMAC under the secret that was reset
 Msgs(s, c) ==
      {[k |-> "FC", id |-> None, resp |-> None, type |-> t] : t \in Types}
   \cup {[k |-> "P1", id |-> X, resp |-> None, type |-> t] : X \in ClientS, t \in Types}
@@ -180,14 +211,20 @@ Out(h) == CASE Emit = "all" -> PrintT("BEH " \o ToJson(h))
             [] Emit = "last" -> (IF Len(h) >= MaxLevel THEN PrintT("BEH " \o ToJson(h)) ELSE TRUE)
             [] OTHER -> TRUE
 
+\* the statement's "banned or blacklisted address": banned by the protector, or on the operator's blacklist - the
+\* persisted list, which a restarted server / another node must enforce as well as the one that took the entry - and
+\* not exempted by the operator's whitelist
+Barred(s, c) == c \in s.banned \/ ((c \in s.black \/ c \in s.blackP) /\ c \notin s.whiteP)
+
 \* step properties of C03 evaluated on a sequential handshake step s -> t on connection c
 StepViol(s, t, c, m, out) ==
   LET ch == {X \in ClientS : t.idx[X] # s.idx[X]} IN
      (IF out # "ok" /\ \E d \in ConnS : AuthOf(t, d) # AuthOf(s, d) /\ ~(d # c /\ AuthOf(t, d) = None) THEN {"NonSuccessChangedAuth"} ELSE {})
   \cup (IF out # "ok" /\ \E X \in ch : ~(t.idx[X] = None \/ (t.idx[X] = c /\ AuthOf(s, c) = X)) THEN {"NonSuccessInstalledForeign"} ELSE {})
   \cup (IF \E X \in ch : t.idx[X] # None /\ ~(t.idx[X] = c /\ AuthOf(t, c) = X) THEN {"InstalledWithoutAuth"} ELSE {})
-  \cup (IF out = "ok" /\ (c \in s.banned \/ c \in s.black) THEN {"BarredAddressAuthenticated"} ELSE {})
-  \cup (IF out = "ok" /\ m.k = "P2" /\ (m.id \notin s.issued \/ m.id \in s.expired) THEN {"UnknownOrExpiredAuthenticated"} ELSE {})
+  \cup (IF out = "ok" /\ Barred(s, c) THEN {"BarredAddressAuthenticated"} ELSE {})
+  \cup (IF out = "ok" /\ m.k = "P2" /\ m.resp # "ValidLatest" THEN {"UnprovenKeyAccepted"} ELSE {})
+  \cup (IF out = "ok" /\ m.k = "P2" /\ (m.id \notin s.issued \/ m.id \in s.deleted \/ m.id \in s.expired) THEN {"UnknownOrExpiredAuthenticated"} ELSE {})
   \cup (IF out = "ok" /\ m.k = "P2" /\ <<c, s.pend[c]>> \in used THEN {"NonceAcceptedTwice"} ELSE {})
   \cup (IF m.type = "tunnel" /\ ch # {} THEN {"TunnelTypeChangedIndex"} ELSE {})
 
@@ -333,17 +370,38 @@ Ban(c) == /\ "Ban" \in Ops /\ Go /\ c \in st.sess /\ c \notin st.banned
 \* IPManager.AddToBlacklist: in-memory list and shared storage. how = "temp" (a duration that does
 \* not run out within a behaviour), "perm" (duration 0 = never expires), "cidr" (permanent, as a range)
 Blacklist(c, how) == /\ "Blacklist" \in Ops /\ Go /\ c \in st.sess /\ c \notin st.black
-                     /\ LET t == [st EXCEPT !.black = @ \cup {c}, !.blackP = @ \cup {c}]
+                     /\ LET t == [st EXCEPT !.black = @ \cup {c}, !.blackP = @ \cup {c},
+                                            !.bhow[c] = IF "Reload" \in Ops THEN how ELSE "any"]   \* the shape matters to the loader only
                         IN st' = t /\ Record([op |-> "Blacklist", c |-> c, how |-> how], t)
                      /\ UNCHANGED <<pc, proved, ctl, used, gv, dev>>
 \* the IPManager is re-created on the same storage (restart / another node): every persisted entry is in force again
-Reload == /\ "Reload" \in Ops /\ Go /\ st.blackP # {}
-          /\ LET t == [st EXCEPT !.black = st.blackP] IN st' = t /\ Record([op |-> "Reload"], t)
+\* (loadListFromStorage: index list, one record per entry; the record shapes go through different branches)
+DropOnLoad(h) == \/ h \in {"perm", "cidr"} /\ "reloadDropsPermanent" \in Faults
+                 \/ h = "temp" /\ "reloadDropsTemporary" \in Faults
+                 \/ h = "cidr" /\ "reloadDropsRanges" \in Faults
+\* (ipgen counts the re-creations: the lists of a re-created manager were loaded, not written by AddTo..., and every
+\* message class is explored again behind a restart; one restart per behaviour)
+Reload == /\ "Reload" \in Ops /\ Go /\ (st.blackP # {} \/ st.whiteP # {}) /\ st.ipgen < 1
+          /\ LET t == [st EXCEPT !.black = {c \in st.blackP : ~DropOnLoad(st.bhow[c])}, !.white = st.whiteP, !.ipgen = @ + 1]
+             IN st' = t /\ Record([op |-> "Reload"], t)
           /\ UNCHANGED <<pc, proved, ctl, used, gv, dev>>
-\* the stored secret of X becomes undecryptable for this server
-Corrupt(X) == /\ "Corrupt" \in Ops /\ Go /\ X \in st.issued /\ X \notin st.corrupt
-              /\ LET t == [st EXCEPT !.corrupt = @ \cup {X}] IN st' = t /\ Record([op |-> "Corrupt", id |-> X], t)
-              /\ UNCHANGED <<pc, proved, ctl, used, gv, dev>>
+\* IPManager.AddToWhitelist: in-memory list and shared storage. how = "exact" | "cidr" (a range covering exactly c)
+Whitelist(c, how) == /\ "Whitelist" \in Ops /\ Go /\ c \in st.sess /\ c \notin st.white
+                     /\ LET t == [st EXCEPT !.white = @ \cup {c}, !.whiteP = @ \cup {c}]
+                        IN st' = t /\ Record([op |-> "Whitelist", c |-> c, how |-> how], t)
+                     /\ UNCHANGED <<pc, proved, ctl, used, gv, dev>>
+\* the stored secret of X becomes undecryptable for this server. how = "rotated" (sealed under another master key),
+\* "damaged" (well-formed noise), "notb64" (not even well-formed), "short" (well-formed, shorter than a nonce),
+\* "blank" (no encrypted secret at all)
+Corrupt(X, how) == /\ "Corrupt" \in Ops /\ Go /\ X \in st.issued /\ X \notin st.corrupt /\ X \notin st.deleted
+                   /\ LET t == [st EXCEPT !.corrupt = @ \cup {X}, !.blank = IF how = "blank" THEN @ \cup {X} ELSE @]
+                      IN st' = t /\ Record([op |-> "Corrupt", id |-> X, how |-> how], t)
+                   /\ UNCHANGED <<pc, proved, ctl, used, gv, dev>>
+\* Service.ResetSecretKey: a fresh secret is generated and sealed under the current master key; the old one is void
+Rekey(X) == /\ "Rekey" \in Ops /\ Go /\ X \in st.issued /\ X \notin st.rekeyed /\ X \notin st.deleted
+            /\ LET t == [st EXCEPT !.rekeyed = @ \cup {X}, !.corrupt = @ \ {X}, !.blank = @ \ {X}]
+               IN st' = t /\ Record([op |-> "Rekey", id |-> X], t)
+            /\ UNCHANGED <<pc, proved, ctl, used, gv, dev>>
 \* cloud-control outage begins / ends (fault point of close, sweep and heartbeat)
 Cloud(to) == /\ "Cloud" \in Ops /\ Go /\ st.cloud # to
              /\ LET t == [st EXCEPT !.cloud = to] IN st' = t /\ Record([op |-> "Cloud", to |-> to], t)
@@ -368,10 +426,14 @@ KickEnd ==
          t == ReapAll([s1 EXCEPT !.kq = None, !.kx = None])
      IN st' = t /\ Record([op |-> "KickEnd"], t)
   /\ UNCHANGED <<pc, proved, ctl, used, gv, dev>>
-Expire(X) == /\ "Expire" \in Ops /\ Go /\ X \in st.issued /\ X \notin st.expired
+\* Service.DeleteClient: the record is gone; connections authenticated as X are not touched by it
+Delete(X) == /\ "Delete" \in Ops /\ Go /\ X \in st.issued /\ X \notin st.deleted
+             /\ LET t == [st EXCEPT !.deleted = @ \cup {X}] IN st' = t /\ Record([op |-> "Delete", id |-> X], t)
+             /\ UNCHANGED <<pc, proved, ctl, used, gv, dev>>
+Expire(X) == /\ "Expire" \in Ops /\ Go /\ X \in st.issued /\ X \notin st.expired /\ X \notin st.deleted
              /\ LET t == [st EXCEPT !.expired = @ \cup {X}] IN st' = t /\ Record([op |-> "Expire", id |-> X], t)
              /\ UNCHANGED <<pc, proved, ctl, used, gv, dev>>
-Bind(X) == /\ "Bind" \in Ops /\ Go /\ X \in st.issued /\ X \notin st.bound
+Bind(X) == /\ "Bind" \in Ops /\ Go /\ X \in st.issued /\ X \notin st.bound /\ X \notin st.deleted
            /\ LET t == [st EXCEPT !.bound = @ \cup {X}, !.expired = @ \ {X}] IN st' = t /\ Record([op |-> "Bind", id |-> X], t)
            /\ UNCHANGED <<pc, proved, ctl, used, gv, dev>>
 
@@ -380,7 +442,8 @@ Init ==
            tcl |-> {}, reg |-> {},
            auth |-> [c \in ConnS |-> None], pend |-> [c \in ConnS |-> 0], nn |-> [c \in ConnS |-> 0],
            idx |-> [X \in ClientS |-> None], issued |-> {}, expired |-> {}, bound |-> {}, banned |-> {}, black |-> {}, blackP |-> {},
-           corrupt |-> {}, cloud |-> "up", kq |-> None, kx |-> None,
+           corrupt |-> {}, blank |-> {}, rekeyed |-> {}, deleted |-> {}, bhow |-> [c \in ConnS |-> None], white |-> {}, whiteP |-> {}, ipgen |-> 0,
+           cloud |-> "up", kq |-> None, kx |-> None,
            fails |-> [c \in ConnS |-> 0], ord |-> <<>>]
   /\ pc = [c \in ConnS |-> "idle"]
   /\ proved = [c \in ConnS |-> {}] /\ ctl = {} /\ used = {} /\ gv = {} /\ dev = {} /\ hist = <<>>
@@ -396,8 +459,9 @@ Next == \/ Accept
                             \/ SEvict(c) \/ SUpd(c) \/ SUpdLookup(c) \/ SUpdWrite(c)
                             \/ Close(c) \/ Heartbeat(c) \/ Unregister(c) \/ Ban(c)
                             \/ \E how \in {"temp", "perm", "cidr"} : Blacklist(c, how)
+                            \/ \E how \in {"exact", "cidr"} : Whitelist(c, how)
         \/ SReap
-        \/ \E X \in ClientS : Expire(X) \/ Bind(X) \/ Corrupt(X) \/ \E n \in ConnS \cup {None} : (Kick(X, n) \/ KickBegin(X, n))
+        \/ \E X \in ClientS : Expire(X) \/ Bind(X) \/ Rekey(X) \/ Delete(X) \/ (\E how \in {"rotated", "damaged", "notb64", "short", "blank"} : Corrupt(X, how)) \/ \E n \in ConnS \cup {None} : (Kick(X, n) \/ KickBegin(X, n))
         \/ KickEnd \/ Reload \/ Cloud("down") \/ Cloud("up")
         \/ \E S \in SUBSET ConnS : Tick(S)
 Spec == Init /\ [][Next]_vars
